@@ -32,11 +32,13 @@ def pyExponent? (cs : List Char) : Option Int :=
 /-- `float(s)` for the decimal literals Python accepts - surrounding whitespace (the `str.isspace`
     table), an optional `+`, `digits[.digits]`, `.digits`, `digits.`, an optional exponent
     `e|E[+-]digits` - whenever the value is a non-negative whole number of microseconds; the result is in microseconds.
-    Every other string is `ValueError`.  (Not modelled, never generated by the correspondence check:
-    a `-` sign, underscores, non-ASCII digits, `inf`/`nan`, values with more than six decimals and
-    exponents large enough to overflow a double.) -/
+    Every other string is `ValueError` HERE - this is the VALUE model used by the accessors, whose
+    domain (C15/C16) is the running orders on which it returns.  Whether Python's `float()` accepts a
+    string at all (a `-` sign, underscores, `inf`/`nan`, more than six decimals, exponents beyond a
+    double - all accepted) is `pyFloatAccepts` below, which is what merges depend on;
+    `pyFloat_ok_accepts` proves the value model never accepts what Python rejects. -/
 def pyFloat (s : String) : Except PyExc Nat :=
-  let cs0 := pyStripL s.toList
+  let cs0 := pyNumStripL s.toList
   let cs := match cs0 with | '+' :: r => r | r => r
   let mant := cs.takeWhile (fun c => c != 'e' && c != 'E')
   let ex := cs.dropWhile (fun c => c != 'e' && c != 'E')
@@ -56,6 +58,46 @@ def pyFloat (s : String) : Except PyExc Nat :=
     else if n % 10 ^ (-sh).toNat == 0 then .ok (n / 10 ^ (-sh).toNat)
     else .error .ValueError
   | _, _ => .error .ValueError
+
+/-- `digit (["_"] digit)*`: the `digitpart` of Python's float grammar -/
+def digitPartRest : List Char → Bool
+  | [] => true
+  | '_' :: c :: cs => isDigit c && digitPartRest cs
+  | c :: cs => isDigit c && digitPartRest cs
+
+def isDigitPart : List Char → Bool
+  | [] => false
+  | c :: cs => isDigit c && digitPartRest cs
+
+/-- does `float(s)` return (rather than raise `ValueError`)?  Python's grammar for ASCII strings:
+    blanks stripped, an optional sign, then `inf` / `infinity` / `nan` in any case, or
+    `[digitpart] "." digitpart | digitpart ["."]` with an optional exponent `e|E [sign] digitpart`.
+    This is what a MERGE needs to know about a duration (evaluating `ro.stories` calls `float` on every
+    story's timing fields and never looks at the values): not-a-number, infinite, negative and
+    many-decimal durations are all accepted.  `pyFloat` below additionally gives the VALUE, for the
+    accessors, on the strings whose value is a whole number of microseconds.
+    (Not modelled: non-ASCII decimal digits, which `float` also accepts.) -/
+def pyFloatAccepts (s : String) : Bool :=
+  let cs0 := pyNumStripL s.toList
+  let cs := match cs0 with | '+' :: r => r | '-' :: r => r | r => r
+  let lw := cs.map Char.toLower
+  if lw == "inf".toList || lw == "infinity".toList || lw == "nan".toList then true else
+  let mant := cs.takeWhile (fun c => c != 'e' && c != 'E')
+  let ex := cs.dropWhile (fun c => c != 'e' && c != 'E')
+  let ip := mant.takeWhile (fun c => c != '.')
+  let numOk := match mant.dropWhile (fun c => c != '.') with
+    | [] => isDigitPart ip
+    | _ :: fr => (ip.isEmpty || isDigitPart ip) && (fr.isEmpty || isDigitPart fr) && !(ip.isEmpty && fr.isEmpty)
+  let exOk := match ex with
+    | [] => true
+    | _ :: d => isDigitPart (match d with | '+' :: r => r | '-' :: r => r | r => r)
+  numOk && exOk
+
+/-- the exception of `float(e.text)`, if any: `float(None)` is a `TypeError` -/
+def floatExc (e : Xml) : Option PyExc :=
+  match e.text with
+  | none => some .TypeError
+  | some s => if pyFloatAccepts s then none else some .ValueError
 
 /-- `float(e.text)`: `float(None)` is a `TypeError` -/
 def floatOfText (e : Xml) : Except PyExc Nat :=
@@ -148,6 +190,25 @@ def storyDuration (s : Xml) : Except PyExc (Option Nat) :=
         let b ← match mt with | some e => floatOfText e | none => pure 0
         pure (some (a + b))
 
+/-- the exception `_get_story_duration` raises, if any (same control flow, values ignored) -/
+def storyDurationExc (s : Xml) : Option PyExc :=
+  match payloadOf s with
+  | none => none
+  | some p =>
+    match p.find "StoryDuration" with
+    | some e => floatExc e
+    | none =>
+      match (p.find "TextTime").bind floatExc with
+      | some x => some x
+      | none => (p.find "MediaTime").bind floatExc
+
+/-- the first exception `_get_story_offsets` meets, going through the stories in order -/
+def storyOffsetsExc : List Xml → Option PyExc
+  | [] => none
+  | s :: ss => match storyDurationExc s with
+    | some x => some x
+    | none => storyOffsetsExc ss
+
 /-- `_get_story_offsets` (l.13-24): `{story element: offset}` - keyed by the element, so the table is
     the list of offsets by position (each story element occurs once in `ro.stories`; that no element
     occurs twice in a running order is C13's separation invariant).  A missing duration counts
@@ -178,9 +239,6 @@ def storiesExc (rc : Xml) : Option PyExc :=
   if ss.isEmpty then none else
   match roStart rc with
   | .error e => some e
-  | .ok _ =>
-    match storyOffsets ss with
-    | .error e => some e
-    | .ok _ => none
+  | .ok _ => storyOffsetsExc ss
 
 end Mrm
